@@ -213,6 +213,14 @@ def _modify_corpus():
                         "copies": [{"file": 0, "node": "n1", "has": "Y", "wants": wants}, {"file": 0, "node": "n2", "has": "Y", "wants": "Y"}, {"file": 1, "node": "n1", "has": "Y", "wants": "Y"}],
                         "reqs": [], "rules": [], "unregistered": [], "ireqs": []}
                 out.append((spec, [("iter", "h1"), ("cli", "file modify", ["acq1/f0.dat", opt]), ("iter", "h1"), ("iter", "h2"), ("iter", "h1")]))
+    # an import request for a path whose copy is already known --- corrupt, suspect, released or not --- must not make it healthy unchecked
+    for has, wants in (("X", "M"), ("X", "N"), ("X", "Y"), ("M", "N"), ("N", "N")):
+        for disk in ("truncated", "corrupt"):
+            spec = {"groups": [{"name": "g1"}], "nodes": [{"name": "n1", "group": "g1", "stype": "F", "host": "h1", "active": True, "username": "u", "address": "addr"}],
+                    "acqs": ["acq1"], "files": [{"acq": "acq1", "name": "f0.dat", "size": 150}, {"acq": "acq1", "name": "sub/f1", "size": 13}],
+                    "copies": [{"file": 0, "node": "n1", "has": has, "wants": wants, "disk": disk}, {"file": 1, "node": "n1", "has": "Y", "wants": "Y"}],
+                    "reqs": [], "rules": [], "unregistered": [], "ireqs": []}
+            out.append((spec, [("cli", "file import", ["acq1/f0.dat", "n1"]), ("iter", "h1"), ("iter", "h1"), ("cli", "file import", ["acq1/f0.dat", "n1", "--register-new"]), ("iter", "h1"), ("iter", "h1")]))
     return out
 
 
